@@ -1,5 +1,5 @@
 use easy_error::{err_msg, Error, ResultExt};
-use tokio::io::{AsyncBufRead, AsyncBufReadExt, AsyncWrite, AsyncWriteExt};
+use tokio::io::{AsyncBufRead, AsyncBufReadExt, AsyncReadExt, AsyncWrite, AsyncWriteExt};
 use tracing::trace;
 
 type Reader<'a> = &'a mut (dyn AsyncBufRead + Send + Unpin);
@@ -172,6 +172,9 @@ async fn read_headers(
         if buf.is_empty() {
             return Ok(());
         };
+        if headers.len() >= MAX_HEADERS {
+            return Err(err_msg("too many headers"));
+        }
         let a = buf
             .split_once(": ")
             .ok_or_else(|| err_msg(format!("bad response: {:?}", buf)))?;
@@ -179,11 +182,20 @@ async fn read_headers(
     }
 }
 
+// limits of a message head, a peer must not be able to make us buffer without bound
+const MAX_LINE: u64 = 8192;
+const MAX_HEADERS: usize = 128;
+
 async fn read_line(s: Reader<'_>) -> Result<String, Error> {
     let mut buf = String::with_capacity(256);
-    let sz = s.read_line(&mut buf).await.context("readline")?;
+    let sz = s
+        .take(MAX_LINE)
+        .read_line(&mut buf)
+        .await
+        .context("readline")?;
     match sz {
         0 => Err(err_msg("EOF")),
+        _ if !buf.ends_with('\n') => Err(err_msg("line too long or truncated")),
         _ => Ok(buf),
     }
 }
